@@ -156,7 +156,7 @@ func logStr(l []int) string {
 func afterWait(w *waitLogic, expect bool) bool {
 	d := 300 * time.Microsecond
 	if expect {
-		d = 2 * time.Second
+		d = 5 * time.Second
 	} else {
 		runtime.Gosched()
 	}
@@ -528,6 +528,9 @@ func replayTracker(c *Ctx, op string, a map[string]string) {
 	u32 := func(k string) uint32 { v, _ := strconv.ParseUint(a[k], 10, 32); return uint32(v) }
 	tc := trkCase{pre: splitCodes(a["pre"]), post: splitCodes(a["post"]), iv: i64("iv"), miv: i64("miv")}
 	switch op {
+	case "udp.overlap":
+		b, _ := strconv.Atoi(a["burst"])
+		udpOverlap(c, a["prelude"], b)
 	case "udp.served":
 		udpServed(c, strings.Split(a["seq"], ","))
 
